@@ -14,16 +14,22 @@ CONSTANTS Rows, Cols, MaxEntry, MaxDim, MaxBound
 VARIABLES vec
 Flags == BOOLEAN \X BOOLEAN
 Norms == {"0", "1", "2", "inf"}
-KeyVectors == {[kind |-> "glexsort", keys |-> m, graded |-> f[1], reverse |-> f[2]] :
-                  m \in [1..Rows -> [1..Cols -> 0..MaxEntry]], f \in Flags}
-IndexVectors ==
-  UNION {{[kind |-> "glexindex", start |-> s, stop |-> t, qlow |-> q[1], qup |-> q[2], graded |-> f[1], reverse |-> f[2]] :
-             s \in [1..d -> 0..MaxBound], t \in [1..d -> 1..MaxBound], q \in {<<"1", "1">>, <<"0", "0">>, <<"2", "2">>, <<"inf", "inf">>, <<"inf", "1">>}, f \in Flags}
-         : d \in 1..MaxDim}
-Universe == KeyVectors \cup IndexVectors
+RowSet == [1..Cols -> 0..MaxEntry]
+Quads == {<<"1", "1">>, <<"0", "0">>, <<"2", "2">>, <<"inf", "inf">>, <<"inf", "1">>}
 
 Init == vec = [kind |-> "none"]
-Next == vec.kind = "none" /\ \E v \in Universe : vec' = v
+\* two steps (first the first key row / the dimension and start, then the rest), quantifying directly over the function
+\* sets: the universe of the thorough tier has more than 10^6 vectors, which TLC refuses to build as one set, and all
+\* successors of one state are computed by a single worker
+Next ==
+  \/ vec.kind = "none" /\ \E r \in RowSet : vec' = [kind |-> "keyrow", row |-> r]
+  \/ vec.kind = "keyrow" /\ \E m \in [2..Rows -> RowSet], f \in Flags :
+        vec' = [kind |-> "glexsort", keys |-> [i \in 1..Rows |-> IF i = 1 THEN vec.row ELSE m[i]],
+                graded |-> f[1], reverse |-> f[2]]
+  \/ vec.kind = "none" /\ \E d \in 1..MaxDim : \E s \in [1..d -> 0..MaxBound] : vec' = [kind |-> "start", start |-> s]
+  \/ vec.kind = "start" /\ \E t \in [1..Len(vec.start) -> 1..MaxBound], q \in Quads, f \in Flags :
+        vec' = [kind |-> "glexindex", start |-> vec.start, stop |-> t, qlow |-> q[1], qup |-> q[2],
+                graded |-> f[1], reverse |-> f[2]]
 Spec == Init /\ [][Next]_vec
 
 \* ------------------------------------------------------------------ laws
